@@ -266,10 +266,20 @@ func makeTarget(
 		if err != nil {
 			return nil, err
 		}
-		if last := fields[len(fields)-1]; last.IsList() {
+		last := fields[len(fields)-1]
+		if last.IsList() {
 			return nil, fmt.Errorf(
 				"unexpected path variable %q: cannot be a repeated field",
 				variable.fieldPath,
+			)
+		}
+		if kind := last.Kind(); (kind == protoreflect.MessageKind || kind == protoreflect.GroupKind) &&
+			!isWKTWithScalarJSONMapping(last) {
+			// A path segment can only supply a scalar, or a message that JSON writes
+			// as a scalar. That excludes map fields, too, whose entries are messages.
+			return nil, fmt.Errorf(
+				"unexpected path variable %q: cannot be a map field or a field of message type %s",
+				variable.fieldPath, last.Message().FullName(),
 			)
 		}
 		routeTargetVars[i] = routeTargetVar{
